@@ -194,6 +194,28 @@ func GoodLookahead(buf []byte, off int) uint64 {
 	return v
 }
 
+// ---- constant index into a slice of variable length -------------------------
+
+func BadConstIndex(n int) []uint64 {
+	t := make([]uint64, n)
+	t[0] = 1
+	return t
+}
+
+func GoodConstIndexGuarded(n int) []uint64 {
+	t := make([]uint64, n)
+	if n > 0 {
+		t[0] = 1
+	}
+	return t
+}
+
+func GoodConstIndexByConstruction(n int) []uint64 {
+	t := make([]uint64, n+1)
+	t[0] = 1
+	return t
+}
+
 // ---- E5 provenance ---------------------------------------------------------
 
 type Bits struct{ w []uint64 }
